@@ -221,6 +221,9 @@ func checkC09(e *Env) {
 			x := e.refEval(op)
 			x.out, x.newValid = nil, 0 // only the size rule is this property's business
 			want := (op.Fn == "enc" && validEntLen(len(op.Entropy()))) || (op.Fn == "new" && validCount64(op.N))
+			if want && op.Fn == "new" && x.errClass != "nil" {
+				continue // an accepted count with a source that fails: C06's business
+			}
 			if !want {
 				empty := ""
 				x.out = &empty
